@@ -391,6 +391,9 @@ def process_block(blk, repo_root, log, auto_prologue):
         head = ""
         if derives and item["kind"] in ("struct", "enum"):
             head = "#[derive(%s)]\n" % ", ".join(sorted(set(derives)))
+        if item["kind"] == "struct" and not re.search(r"struct\s+\w+\s*<", text):
+            sname = re.search(r"struct\s+(\w+)", text).group(1)
+            entry["f64_fields"] = (sname, re.findall(r"(\w+)\s*:\s*f64\b", text))
         log.append(entry)
         return head + text.strip() + "\n", entry
 
@@ -527,6 +530,22 @@ def build_unit(template_path, repo_root, canary=False):
                 blk.file, blk.path, entry["line"], entry["end_line"], text), ("repo", entry)))
     full = "\n".join(c for c, _ in out_chunks)
     lits_text, lit_names = literal_axioms(full.replace("//@LITS@", ""))
+    # Verus omits the f64 typing fact for fields of structs whose fields are all invariant-free; the f64 axioms
+    # are guarded by that fact, so state it per field (assumption: an f64 field holds an f64)
+    ft = ["pub uninterp spec fn f64_typed<T>(s: T, i: int) -> f64;"]
+    names = []
+    for it in log:
+        if it.get("f64_fields") and it["f64_fields"][1]:
+            sname, fields = it["f64_fields"]
+            for k, fld in enumerate(fields):
+                nm = "ax_f64_field_%s_%s" % (sname, fld)
+                names.append(nm)
+                ft.append("broadcast axiom fn %s(s: %s) ensures #[trigger] s.%s == f64_typed(s, %d);" % (nm, sname, fld, k))
+    if not names:
+        names.append("ax_f64_field_none")
+        ft.append("broadcast axiom fn ax_f64_field_none(x: f64) ensures #[trigger] f64_typed(x, 0) == f64_typed(x, 0);")
+    ft.append("broadcast group f64_field_types { %s }" % ", ".join(names))
+    lits_text = lits_text + "\n// ---- f64 field typing facts\n" + "\n".join(ft)
     if has_lits_marker:
         full = full.replace("//@LITS@", "// ---- R9: generated literal axioms\n" + lits_text)
     # line map
